@@ -153,6 +153,8 @@ class PyParser:
             m = re.fullmatch(r"__H(\d+)__", n.id) if self.holes else None
             if m:
                 return R.add("hole", s=str(int(m.group(1)) + 1))
+            if self.holes and n.id == "__T0__":
+                return R.add("name:__T0__")
             if n.id in ("True", "False"):
                 return R.add("lit", s="bool", v=int_literal(int(n.id == "True")))
             return R.add("var", s=n.id)
@@ -702,7 +704,12 @@ def project(graph):
             if isinstance(val, Expr):
                 rec = dict(k="constant", a=[], t=str(e.get_type()), n="", v=dict(NOV, c="unsupported", name="alt-context expression"))
             else:
-                rec = dict(k="constant", a=[], t=str(e.get_type()), n="", v=value_encoding(val))
+                t = str(e.get_type())
+                v = value_encoding(val)
+                if t.startswith("integer") and v["c"] == "float":
+                    # ill-typed by construction (a float value with an integer like, produced by constant folding): not judged
+                    v = dict(NOV, c="unsupported", name="float value in an integer-typed constant")
+                rec = dict(k="constant", a=[], t=t, n="", v=v)
         else:
             ops = [visit(o) for o in e.operands]
             try:
